@@ -858,6 +858,65 @@ func (e *c38Env) scF14Forced() {
 	_ = seenClose
 }
 
+// dropForced: deterministic schedule for the DropPrefix/commit deadlock through the hook point
+// "sendToWriteCh.beforeSend": a commit is parked after its blockWrites check (it holds its commit
+// timestamp); DropPrefix starts, blocks writes, stops the writer and reaches its View; the commit
+// is released and sends to the writer-less channel.
+func (e *c38Env) scDropForced() {
+	db, _ := e.open("db")
+	e.call("Update", func() error {
+		return db.Update(func(txn *badger.Txn) error { return txn.Set([]byte("k00/seed"), []byte("v")) })
+	})
+	var mu sync.Mutex
+	park := true
+	atSend, relSend := make(chan struct{}), make(chan struct{})
+	badger.VerifSetController(&badger.VerifController{Point: func(name string, args ...uint64) {
+		if name != "sendToWriteCh.beforeSend" {
+			return
+		}
+		mu.Lock()
+		p := park
+		park = false
+		mu.Unlock()
+		if p {
+			close(atSend)
+			<-relSend
+		}
+	}})
+	defer badger.VerifSetController(nil)
+	var wg sync.WaitGroup
+	wg.Add(1)
+	go func() {
+		defer wg.Done()
+		e.call("Update", func() error {
+			return db.Update(func(txn *badger.Txn) error { return txn.Set([]byte("k01/racer"), []byte("v")) })
+		})
+	}()
+	select {
+	case <-atSend:
+	case <-time.After(5 * time.Second):
+		e.note("hook-missing:sendToWriteCh.beforeSend")
+		mu.Lock()
+		park = false
+		mu.Unlock()
+		c38Wait(&wg)
+		e.closeDB(db)
+		return
+	}
+	e.mu.Lock()
+	e.res.Hooks = true
+	e.mu.Unlock()
+	wg.Add(1)
+	go func() {
+		defer wg.Done()
+		e.call("DropPrefix", func() error { return db.DropPrefix([]byte("k00/")) })
+	}()
+	time.Sleep(time.Duration(e.pi("holdms", 300)) * time.Millisecond)
+	close(relSend)
+	c38Wait(&wg)
+	e.closeDB(db)
+}
+
 func (e *c38Env) run() {
 	switch e.spec.Scenario {
 	case "stall":
@@ -878,6 +937,8 @@ func (e *c38Env) run() {
 		e.scCloseVsDrop()
 	case "f14-forced":
 		e.scF14Forced()
+	case "drop-forced":
+		e.scDropForced()
 	default:
 		e.note("unknown scenario %q", e.spec.Scenario)
 	}
@@ -1040,7 +1101,25 @@ func c38Classify(r *c38Run) (sig, what string, evidence map[string]interface{}) 
 		ev["orphans_in_writech"] = r.Res.Orphans
 		writerAlive := strings.Contains(dump, "badger/v4.(*DB).doWrites")
 		st := h.Stack
+		anyStack := func(subs ...string) bool {
+			for _, x := range r.Res.Hung {
+				all := true
+				for _, sub := range subs {
+					if !strings.Contains(x.Stack, sub) {
+						all = false
+					}
+				}
+				if all {
+					return true
+				}
+			}
+			return false
+		}
 		switch {
+		case r.Res.CloseStarted == 0 && anyStack("filterPrefixesToDrop", "(*WaterMark).WaitForMark") && anyStack("(*request).Wait") && !writerAlive:
+			return "c38-dropprefix-racing-commit-deadlocks", "DropPrefix and a commit wait for each other: the commit passed the blockWrites check before DropPrefix blocked writes and its request sits in writeCh with no doWrites goroutine (restarted only when DropPrefix returns), while DropPrefix's filterPrefixesToDrop -> db.View -> readTs waits for that commit's timestamp", ev
+		case r.Res.CloseStarted > 0 && anyStack("(*WaterMark).") && !strings.Contains(st, "(*request).Wait"):
+			return "c38-newtransaction-racing-close-hangs", h.API + " never returned: Close's orc.Stop() ended the watermark goroutine; a call is stuck in WaitForMark / sending to the dead goroutine's channel (and, if it holds the oracle locks, every other commit behind it)", ev
 		case strings.Contains(st, "(*request).Wait") && !writerAlive && r.Res.CloseStarted > 0:
 			return "F14-commit-racing-close-hangs-or-panics", fmt.Sprintf("%s never returned: its request was sent on db.writeCh after doWrites' last look at the channel (no doWrites goroutine exists, %d request(s) left in writeCh), so req.Wait() blocks forever", h.API, r.Res.Orphans), ev
 		case strings.Contains(st, "(*WaterMark).WaitForMark") && r.Res.CloseStarted > 0:
@@ -1107,6 +1186,7 @@ func c38Plans(c *Ctx) []c38Plan {
 			{"close-vs-drop", 0, pick(3, 6), map[string]int{"mem": 128 << 10, "nmem": 2, "l0": 1, "stall": 2}},
 			{"f14-forced", 0, 1, map[string]int{"flavour": 0}},
 			{"f14-forced", 0, 1, map[string]int{"flavour": 1}},
+			{"drop-forced", 0, 1, map[string]int{"holdms": 300}},
 		}
 	}
 	var out []c38Plan
@@ -1141,6 +1221,9 @@ func runC38(c *Ctx) error {
 				DeadlineMs: 60000, PostCloseM: 10000, P: p.p}
 			if p.name == "f14-forced" || p.name == "close-vs-newtxn" {
 				spec.PostCloseM = 5000 // forced / near-certain schedules: Close has returned, no server goroutine is left
+			}
+			if p.name == "drop-forced" {
+				spec.DeadlineMs = 12000 // forced schedule: the dump shows the wait cycle
 			}
 			runs[i] = c38RunChild(c, i, spec, 240*time.Second)
 		}(i, p)
@@ -1354,6 +1437,13 @@ func c38EmitCases(c *Ctx, r *c38Run, sig string) {
 		p.not("R_pass")
 		emit("newtxn-hang", false, p, c38Exp{blk: 1, closed: true, hungR: 1}, 0)
 		return
+	case sig == "c38-dropprefix-racing-commit-deadlocks":
+		p := &c38Prog{}
+		p.do("E_commit", "L_acq", "H_ts", "H_check", "(E_drop true)", "D_sig", "W_sig", "W_default", "W_final", "J_done", "D_waitw",
+			"D_default", "J_done", "H_send", "D_stopf", "F_exit", "D_waitf")
+		p.not("D_view", "D_noview", "W_recv", "D_drain", "D_restart")
+		emit("drop-hang", false, p, c38Exp{hungC: 1}, 0)
+		return
 	case sig != "":
 		return // outside the model (e.g. Close racing DropAll): the oracle failure stands alone
 	}
@@ -1464,14 +1554,18 @@ func c38EmitCases(c *Ctx, r *c38Run, sig string) {
 				}
 			}
 			e.ok = a
+			edrop := "(E_drop true)"
+			if v%2 == 1 && c38Sum(da, "ok") > 0 {
+				edrop = "(E_drop false)"
+			}
 			if dok > 0 {
-				p.do("E_drop")
+				p.do(edrop)
 				if blkC > 0 {
 					p.parkTs()
 					e.blk = 1
 				}
 				if dbl > 0 {
-					p.do("E_drop")
+					p.do("(E_drop true)")
 					e.dblk = 1
 				}
 				if v%2 == 1 {
